@@ -205,8 +205,24 @@ pub fn check_sinks_and_moves(h: &History, tmpdir: &str, obs: &mut Obs) -> Vec<Vi
         let runs = std::thread::scope(|sc| {
             sc.spawn(|| {
                 let mut runs = Vec::new();
-                for k in [0usize, 1, 2, 3, 6, usize::MAX] {
-                    if k == usize::MAX {
+                for k in [0usize, 1, 2, 3, 6, usize::MAX, usize::MAX - 1] {
+                    if k == usize::MAX - 1 {
+                        // a COMPLETED earlier recording with another cadence (every timestamp
+                        // stretched by 25 %), finished and dropped before this one starts
+                        let mut other = h.clone();
+                        for op in other.ops.iter_mut() {
+                            match op {
+                                Op::WriteVideo { pts, .. } | Op::WriteAudio { pts, .. } => *pts = (f64::from_bits(*pts) * 1.25).to_bits(),
+                                Op::WriteVideoDts { pts, dts, .. } => {
+                                    *pts = (f64::from_bits(*pts) * 1.25).to_bits();
+                                    *dts = (f64::from_bits(*dts) * 1.25).to_bits();
+                                }
+                                Op::EncodeVideo { dur_ms, .. } => *dur_ms = dur_ms.saturating_add(*dur_ms / 4 + 1),
+                                _ => {}
+                            }
+                        }
+                        let _ = run_on(Vec::<u8>::new(), &other, &ExecOpts::default(), &no_seq);
+                    } else if k == usize::MAX {
                         let mut cut = h.clone();
                         cut.ops.retain(|o| !o.is_finish());
                         let _ = run_on(Vec::<u8>::new(), &cut, &ExecOpts::default(), &no_seq);
